@@ -6,7 +6,7 @@
 (*   SubmitCall(j) / SubmitRet(j, ok | refused | closed | error)           *)
 (*   JobStart(j, w) / JobEnd(j, w)          the job ran in worker thread w *)
 (*   DoneCall(w) / DoneRet(w)               notify_done                    *)
-(*   CloseCall / CloseRet, WorkerExit(w), End(maxw, how)                   *)
+(*   CloseCall / CloseRet, WorkerExit(w), Quiet, End(maxw, how)            *)
 (* The atomic effects (SubmitEffect, DoneEffect, CloseEffect, Drop) of     *)
 (* Pool.tla are not logged; TLC places each between the call and the       *)
 (* return.  A trace is accepted iff some placement explains it.            *)
@@ -79,13 +79,18 @@ CloseEffect == /\ cls = "called" /\ cls' = "eff" /\ closed' = TRUE
                /\ UNCHANGED <<t, l, js, jw, sub, subres, dn>>
 CloseRet == /\ More /\ Ev.e = "CloseRet" /\ cls = "eff" /\ cls' = "done" /\ Adv
             /\ UNCHANGED <<ws, js, jw, sub, subres, dn, closed>>
+\* all jobs were released, every thread is parked and the pool is still open: whatever was accepted has been served
+Quiet == /\ More /\ Ev.e = "Quiet" /\ ~closed /\ cls = "no"
+         /\ \A j \in Jobs : js[j] \in {"new", "ended", "refused"}
+         /\ \A w \in Workers : ws[w] \in {"none", "idle", "retired", "exited"}
+         /\ Adv /\ UNCHANGED <<ws, js, jw, sub, subres, dn, closed, cls>>
 \* end of the run (everything released, quiescent): nothing left waiting, nobody left behind, bound respected
 End == /\ More /\ Ev.e = "End" /\ Ev.how = "ok" /\ Ev.maxw <= Size
        /\ \A j \in Jobs : js[j] \in {"new", "ended", "refused", "dropped", "closedout"}
        /\ \A w \in Workers : ws[w] \in {"none", "exited"}
        /\ Adv /\ UNCHANGED <<ws, js, jw, sub, subres, dn, closed, cls>>
 Next == SubmitCall \/ SubmitEffect \/ SubmitRet \/ JobStart \/ JobEnd \/ DoneCall \/ DoneRet
-        \/ WorkerExit \/ CloseCall \/ CloseEffect \/ CloseRet \/ End
+        \/ WorkerExit \/ CloseCall \/ CloseEffect \/ CloseRet \/ End \/ Quiet
         \/ \E w \in Workers : DoneEffect(w)
         \/ \E j \in Jobs : Drop(j)
 Spec == Init /\ [][Next]_vars
